@@ -498,10 +498,6 @@ def _fixed(cps, header_parser, entry, includes):
 
 # region --fix-indents
 
-SIG_TYPEERROR = 'HeaderParser.fix_indents:TypeError:bytes-written-to-text-handle:tmp-left-behind'
-SIG_TABS = 'HeaderParser.fix_indents:later-continuation-lines-gain-a-tab-on-every-pass'
-
-
 def pp_line_numbers(text):
 	"""Independent statement of "preprocessor line": a line whose first non-blank character is '#', and the lines continuing it
 	(1-based; a line continues the previous one when that one ends in a backslash).  Include lines never start a continuation."""
@@ -590,40 +586,26 @@ def lint_indents(header_parser, path, fix):
 
 
 def fix_pass(ctx, header_parser, path, case):
-	"""One --fix-indents pass over `path` through the real HeaderParser. Returns (ok, used_fallback)."""
+	"""One --fix-indents pass over `path` through the real HeaderParser.__init__. Returns True when the pass went through."""
 	directory = os.path.dirname(path) or '.'
 	with open(path, 'rb') as infile:
 		before = infile.read()
 	names_before = listing(directory)
 	outcome, _, _, text = lint_indents(header_parser, path, True)
 	if 'ok' == outcome:
-		return True, False
+		return True
 	if 'RuntimeError' == outcome:
-		return False, False
-	# TypeError: the defect of the pinned code (bytes written to a text-mode handle)
+		return False
 	with open(path, 'rb') as infile:
 		intact = infile.read() == before
 	stray = sorted(set(listing(directory)) - set(names_before))
-	tmp_name = os.path.basename(path) + '.tmp'
-	known_shape = 'must be str, not bytes' in (text or '') and intact and [tmp_name] == stray
-	fail_once(
-		ctx, 'property', f'--fix-indents raises TypeError ({text}) on {case["name"]} and leaves {stray!r} behind (original intact: {intact})',
-		dict(case, exception=text, stray=stray, original_intact=intact), SIG_TYPEERROR if known_shape else None)
-	ctx.count('fix:TypeError')
+	ctx.fail(
+		'property', f'--fix-indents raises {outcome} ({text}) on {case["name"]} and leaves {stray!r} behind (original intact: {intact})',
+		dict(case, exception=text, stray=stray, original_intact=intact))
+	ctx.count(f'fix:{outcome}')
 	for name in stray:
 		os.remove(os.path.join(directory, name))
-	if not known_shape:
-		return False, False
-	# go on through the real fix_indents with a handle that accepts what it writes, and the same remove/move steps
-	import shutil
-	parsed = header_parser.HeaderParser(lambda group, err: None, path, [])
-	if parsed.fixes:
-		with open(path, 'r', encoding='utf8') as infile:
-			with open(path + '.tmp', 'wb') as outfile:
-				parsed.fix_indents(infile, outfile)
-		os.remove(path)
-		shutil.move(path + '.tmp', path)
-	return True, True
+	return False
 
 
 def diff_lines(before, after):
@@ -673,18 +655,16 @@ def check_fix_case(ctx, header_parser, root, relpath, name, text, edits, request
 		if what.startswith('directive indented') and (number, 'preprocessor should be aligned to column 0') not in reports0:
 			ctx.fail('property', f'{name}: seeded mis-indentation at line {number} ({what}) is not reported', case)
 
-	ok, fallback = fix_pass(ctx, header_parser, path, case)
-	if not ok:
+	if not fix_pass(ctx, header_parser, path, case):
 		return
-	ctx.count('fix:pass1:' + ('direct-method-with-binary-handle' if fallback else 'through-HeaderParser.__init__'))
+	ctx.count('fix:pass1:through-HeaderParser.__init__')
 	with open(path, 'rb') as infile:
 		once = infile.read().decode('utf8')
 	names1 = listing(directory)
 	requests.append((f'fix {sx(text)}', f'ok {sx(once)}', case, 'file contents after one --fix-indents pass'))
 	requests.append((
-		f'runfix {0 if fallback else 1} {sx(relpath)} {sx(text)}',
-		('write-failed ' + f'{sx(relpath + ".tmp")}=-,{sx(relpath)}={sx(text)}') if fallback else (
-			('untouched' if not fixes0 else 'rewritten') + f' {sx(relpath)}={sx(once if fixes0 else text)}'), case, 'temp-file protocol'))
+		f'runfix 1 {sx(relpath)} {sx(text)}', ('untouched' if not fixes0 else 'rewritten') + f' {sx(relpath)}={sx(once if fixes0 else text)}', case,
+		'temp-file protocol'))
 
 	if not direct:
 		ctx.count('fix:correspondence-only-case')
@@ -708,23 +688,17 @@ def check_fix_case(ctx, header_parser, root, relpath, name, text, edits, request
 		ctx.fail('property', f'{name}: after --fix-indents the linter still reports indentedPreprocessor: {reports1!r} ({outcome1})', dict(case, after=once, reports=reports1))
 
 	# direct: a second pass changes nothing
-	ok, fallback2 = fix_pass(ctx, header_parser, path, case)
-	if not ok:
+	if not fix_pass(ctx, header_parser, path, case):
 		return
+	ctx.count('fix:pass2:through-HeaderParser.__init__')
 	with open(path, 'rb') as infile:
 		twice = infile.read().decode('utf8')
 	if listing(directory) != names0:
 		ctx.fail('property', f'{name}: the second --fix-indents pass changed the directory listing: {listing(directory)!r}', case)
 	if twice != once:
 		changed = diff_lines(once, twice)
-		kinds1 = pp_line_numbers(once)
-		tab_only = changed is not None and all(
-			'later-continuation' == kinds1.get(number) and twice.split('\n')[number - 1] == '\t' + once.split('\n')[number - 1] for number in changed)
-		ctx.count('fix:second-pass-differs' + (':later-continuation-tab' if tab_only else ''))
-		fail_once(
-			ctx, 'property' if direct or tab_only else 'skip', f'{name}: a second --fix-indents pass changes the file again (lines {changed!r}'
-			+ (': every later continuation line of a multi-line macro gains one more tab)' if tab_only else ')'),
-			dict(case, once=once, twice=twice, changed=changed), SIG_TABS if tab_only else None)
+		ctx.count('fix:second-pass-differs')
+		ctx.fail('property', f'{name}: a second --fix-indents pass changes the file again (lines {changed!r})', dict(case, once=once, twice=twice, changed=changed))
 	else:
 		ctx.count('fix:second-pass-identical')
 	requests.append((f'fix {sx(once)}', f'ok {sx(twice)}', case, 'file contents after the second pass'))
@@ -788,11 +762,9 @@ def check_cli_fix(ctx, base, files):
 		ctx.case(('cli', run_number, tuple(files)), {'command': ' '.join(command[1:]), 'exit': proc.returncode, 'stderr_tail': proc.stderr[-200:]})
 		if 'Traceback' in proc.stderr:
 			stray = sorted(set(states[-1]) - set(states[0]))
-			intact = all(states[-1].get(name) == data for name, data in states[0].items())
-			known_shape = 'TypeError: write() argument must be str, not bytes' in proc.stderr and intact and 1 == len(stray) and stray[0].endswith('.tmp')
-			fail_once(
-				ctx, 'property', f'checkProjectStructure.py --fix-indents crashes (exit {proc.returncode}): {proc.stderr.strip().splitlines()[-1]}; stray files {stray!r}',
-				case, SIG_TYPEERROR if known_shape else None)
+			ctx.fail(
+				'property', f'checkProjectStructure.py --fix-indents crashes (exit {proc.returncode}): {proc.stderr.strip().splitlines()[-1]}; stray files {stray!r}',
+				dict(case, stray=stray))
 			ctx.count('cli:crash')
 			return
 		stray = sorted(set(states[-1]) - set(states[0]))
@@ -801,14 +773,9 @@ def check_cli_fix(ctx, base, files):
 		if 2 == run_number:
 			differing = sorted(name for name in states[1] if states[1][name] != states[2].get(name))
 			if differing:
-				tab_only = True
-				for name in differing:
-					once, twice = states[1][name].decode('utf8'), states[2][name].decode('utf8')
-					changed = diff_lines(once, twice)
-					kinds1 = pp_line_numbers(once)
-					tab_only = tab_only and changed is not None and all(
-						'later-continuation' == kinds1.get(number) and twice.split('\n')[number - 1] == '\t' + once.split('\n')[number - 1] for number in changed)
-				fail_once(ctx, 'property', f'a second --fix-indents run changes files again: {differing!r}', case, SIG_TABS if tab_only else None)
+				name = differing[0]
+				changed = diff_lines(states[1][name].decode('utf8'), states[2][name].decode('utf8'))
+				ctx.fail('property', f'a second --fix-indents run changes files again: {differing!r} (first: lines {changed!r} of {name})', dict(case, differing=differing))
 			if 'Invalid indent' in proc.stdout:
 				ctx.fail('property', 'the second --fix-indents run still reports indentedPreprocessor', dict(case, stdout=proc.stdout[-600:]))
 		ctx.count(f'cli:run{run_number}:exit{min(proc.returncode, 1)}')
@@ -880,7 +847,7 @@ def run(ctx):
 				with_macros.append(relpath)
 	fix_files = rng.sample(files, ctx.scale(120, 700)) + with_macros
 	check_fix_indents(ctx, header_parser, base, fix_files)
-	check_cli_fix(ctx, base, rng.sample([relpath for relpath in files if relpath.startswith('src/catapult/utils/')], 5))
+	check_cli_fix(ctx, base, rng.sample([relpath for relpath in files if relpath.startswith('src/catapult/utils/')], 5) + with_macros[:4])
 
 
 def replay(ctx, payload):
@@ -933,13 +900,14 @@ MANIFEST = {
 		'The include comparison is proved to be a strict weak order, in fact a strict total order, for ALL strings and ALL priority tables '
 		'(lt_irrefl, lt_asymm, lt_trans, incomp_trans, incomp_iff_eq: each stage of __lt__/compare_paths is comparison by a key, the cascade '
 		'their lexicographic product); sort_unique, propose_idem, propose_no_complaint for the proposed order; for the indent fixer '
-		'fix_touches_only_pp_lines, fix_no_complaint, fix_leaves_no_file, and fix_idem only under a hypothesis (fix_idem_partial) because '
-		'the negation is proved for the code as written (fix_not_idem). The models are tied to checkProjectStructure.py / HeaderParser.py by '
-		'constants re-read on every run and by differential execution, and every clause is also evaluated directly on the implementation.'),
+		'fix_touches_only_pp_lines, fix_no_complaint, fix_leaves_no_file, fix_fixed_point, and fix_idem under one hypothesis on the '
+		'once-fixed file (fix_idem_partial; fix_idem_needs_hypothesis proves it cannot be dropped: a backslash followed by blanks). The '
+		'models are tied to checkProjectStructure.py / HeaderParser.py by constants re-read on every run and by differential execution, '
+		'and every clause is also evaluated directly on the implementation: --fix-indents twice through HeaderParser.__init__ and through '
+		'the command line on files with seeded mis-indentations, including macros with two or more continuation lines.'),
 	'level_note': (
 		'Trusted: Lean kernel + {propext, Classical.choice, Quot.sound}; hand-written models tied by differential execution only; ply/colorama '
-		'stand-ins are needed to import the linter. Own directory assumed free of regex metacharacters; \\w modelled on ASCII. Open findings on '
-		'the unchanged tree: --fix-indents raises TypeError and leaves <file>.tmp; the fixer is not idempotent on macros with two or more '
-		'continuation lines.'),
+		'stand-ins are needed to import the linter. Own directory assumed free of regex metacharacters; \\w modelled on ASCII. No open '
+		'finding: the two fix_indents defects of the snapshot are repaired in /repo (773ae3f7f, 4e3df52c9) and the check now fails on them.'),
 	'technique': 'Lean 4 theorems over a hand-written model + differential correspondence with the Python implementation',
 }
